@@ -53,6 +53,13 @@ def instances(tier, rng):
                 r = C.base(u, "MinErrorFlow", "node")
                 r["wt"] = "int"
                 node_insts.append(r)
+            if rng.random() < 0.5:       # node mode with declared starts / ends: translated through the expansion
+                r = C.base(u, "MinErrorFlow", "node")
+                r["wt"] = "int"
+                r[rng.choice(["starts", "ends"])] = [rng.choice(u["nodes"])]
+                if rng.random() < 0.5:
+                    r["ends"] = [rng.choice(u["nodes"])]
+                node_insts.append(r)
     return insts, node_insts, groups
 
 
@@ -71,9 +78,14 @@ def run(tier, seed):
     edge_twins = []
     for r in node_insts:
         xr = exp[r["id"]]
-        edge_twins.append({"cls": "MinErrorFlow", "grp": r["grp"], "id": r["id"] + 1, "mode": "edge", "wt": "int",
-                           "nodes": xr["nodes"], "edges": [list(t) for t in xr["edges"]], "ew": xr["ew"],
-                           "ign": [list(t) for t in xr["ign"]], "is_expansion": True})
+        tw = {"cls": "MinErrorFlow", "grp": r["grp"], "id": r["id"] + 1, "mode": "edge", "wt": "int",
+              "nodes": xr["nodes"], "edges": [list(t) for t in xr["edges"]], "ew": xr["ew"],
+              "ign": [list(t) for t in xr["ign"]], "is_expansion": True}
+        if xr["starts"]:
+            tw["starts"] = xr["starts"]
+        if xr["ends"]:
+            tw["ends"] = xr["ends"]
+        edge_twins.append(tw)
     recs = P.drive(insts + groups + node_insts + edge_twins)
     for r in recs:
         r.setdefault("lam", [0, 1])
